@@ -110,3 +110,22 @@ Proof.
   exists [68; 101; 102]%N, w_defexp_terms, [68; 101; 102; 45; 101; 120; 112; 97; 110; 100; 47; 77; 121; 68; 101; 102]%N, (Tag 1 w_def_terms [68; 101; 102; 47; 77; 121; 68; 101; 102]%N [68; 101; 102; 47; 77; 121; 68; 101; 102]%N).
   split; [vm_compute; reflexivity|]. simpl. intros [H | [H | []]]; discriminate.
 Qed.
+
+(* ---------------------------------------------------------------- the batch entry point, row by row *)
+
+(* row i of the frame is the answer on annotation i alone, wherever the None /
+   empty entries stand (by construction of the model: one [map] over the rows) *)
+Lemma batch_row_by_row fx es rows i :
+  nth_error (search_batch fx es rows) i = option_map (batch_row fx es) (nth_error rows i).
+Proof. unfold search_batch. apply nth_error_map. Qed.
+
+Lemma batch_cell fx es r e i j :
+  children r <> [] -> nth_error es j = Some e ->
+  option_map (fun row => nth_error row j) (Some (batch_row fx es (Some r))) = Some (Some (matches fx e r)) /\
+  (forall rows, nth_error rows i = Some None ->
+     nth_error (search_batch fx es rows) i = Some (map (fun _ => false) es)).
+Proof.
+  intros Hc He. split.
+  - simpl. destruct (children r); [congruence|]. rewrite nth_error_map, He. reflexivity.
+  - intros rows Hr. rewrite batch_row_by_row, Hr. reflexivity.
+Qed.
